@@ -1,12 +1,12 @@
 package store
 
 import (
-	"bufio"
 	"fmt"
 	"os"
 	"path/filepath"
 	"strings"
 
+	"github.com/JunNishimura/Goit/internal/fsutil"
 	"github.com/JunNishimura/Goit/internal/log"
 	"github.com/JunNishimura/Goit/internal/sha"
 	"github.com/fatih/color"
@@ -47,7 +47,7 @@ func (r *Reflog) load(rootGoitPath string, head *Head, refs *Refs) error {
 	}
 	defer f.Close()
 
-	scanner := bufio.NewScanner(f)
+	scanner := fsutil.NewLineScanner(f)
 	for scanner.Scan() {
 		record := &LogRecord{
 			references: make([]string, 0),
